@@ -24,8 +24,10 @@ out = ["### 11.6 Seeded changes and which check reports them\n",
        "%d changes were written by fresh sub-agents that saw only one property's text and a scratch git worktree of `/repo` (never `/verif`): round 1" % len(rows),
        "(`-1..-3`, three per claimed property, made on the pinned commit), round 2 (`-4..-6`, on the tree with the `fix:` commits, asked for *different*",
        "mechanisms), round 3 (`-7..-9`, asked to look further afield: helper modules, constants, constructors, interfering API calls, the other side of an",
-       "interface, boundary values, special configurations) and round 4 (`-10..-12`, ten properties whose rules had been rewritten for robustness; the agents",
-       "were asked to express the breaking change idiomatically - helpers, closures, combinators, `?`, let-else, slice patterns, renamed locals).  Each compiles, passes the unedited",
+       "interface, boundary values, special configurations), round 4 (`-10..-12`, ten properties whose rules had been rewritten for robustness; the agents",
+       "were asked to express the breaking change idiomatically - helpers, closures, combinators, `?`, let-else, slice patterns, renamed locals) and round 5 (`-13..-14`",
+       "for the 17 earlier properties plus C07-1.. for the newly claimed C07; asked for mechanisms off the main path: error/retry/time-out branches, boundary values, rarely used",
+       "API functions, Debug impls, two modules that each look right alone).  Each compiles, passes the unedited",
        "suite and comes with a demonstration test that passes on HEAD and fails with the change; I re-ran all three steps for every seed with",
        "`tools/verify_seed.sh` in a scratch worktree (result line in `seeded/<id>/verified.txt`, commands in `meta.json:what_i_ran`).  None of them is committed in",
        "`/repo`.  `seeded/RESULTS.txt` / `seeded/INDEX.md` are produced by running `tools/variant.sh` over all seeds with the final rules.\n",
@@ -68,6 +70,13 @@ out = ["### 11.6 Seeded changes and which check reports them\n",
        "  after a GAP reply → the variant is read per path class; C15-12 hold-time deadline computed from the token just received → C15 imports C13 `c.deadline`; C18-12",
        "  scanner decoding the ident number little-endian → C18 imports C17 `d.header`.  Also from this round's hits for a weak reason: the FCS fold is recognised",
        "  strictly (start 0, every byte, `wrapping_add`), and the writer must store exactly that sum.",
+       "* round 5 (6 of 36 missed at first): C03-13 the serializer no longer zero-fills the PDU region handed to the builder closure (Set_Prm ORs bits into stale bytes)",
+       "  → C03 `c.set_prm` pdu-zero-filled; C07-1 (= C08-13) `SAP not enabled` arm returns before `fcb.cycle()` → C07 imports C08.b as `e.fcb-toggle`; C08-14 low-priority",
+       "  start-up services declined on a late token through the counter-zeroing `Err` exit (retry sequence forgotten) → C08 imports the closed world of give-up reasons",
+       "  C07.a; C10-13 dispatcher forwards unknown start bytes to the data decoder whose `len < 6 → None` precedes the start-byte test → C10 `c.verdicts` delegate-guard",
+       "  (required only while the sub-decoder has a `None` verdict that has not established its own start byte); C12-13 field-wise offline reset that keeps the token ring",
+       "  (LAS still valid after re-joining) → C12 `d.truthful` offline-forgets-ring; C14-13 the event early-return moved in front of `increment_cycle_state()` → C14",
+       "  `a.progress` declined-turn-advances-slot (per-iteration counters).  The second C07 batch (C07-3.., asked to avoid the frame count bit) is listed below.",
        "* an observation outside a property's scope: the RP2040 PHY (feature `phy-rp2040`) drops the whole receive buffer on a partial drop (acknowledged TODO in its",
        "  source); C16 quantifies over the generic helpers on the simulator/harness PHYs, so this is recorded under `not_decided` in the thorough evidence, not reported.\n",
        "| seed | mechanism | change | applied as | check | first reporting clause |", "|---|---|---|---|---|---|"]
